@@ -18,7 +18,15 @@ def c12_check(kind, items, ns):
         if (a == b) != (b == a): bad.append("symmetric: (%s == %s) is %r but the reverse is %r" % (items[0], items[1], a == b, b == a))
         if isinstance(a, measured.Quantity) and isinstance(b, measured.Quantity):
             lt, gt, eq = cmp(lambda: a < b), cmp(lambda: a > b), a == b
-            if "TypeError" not in (lt, gt):
+            # "away from floating-point ties": two quantities whose values differ by rounding noise of the conversion only
+            # (below 1e-9 relative, not recognised as equal) are a tie; the order laws are not claimed there
+            tie = False
+            try:
+                av, bv = float(a.in_unit(b.unit).magnitude), float(b.magnitude)
+                tie = (not eq) and abs(av - bv) <= 1e-9 * max(abs(av), abs(bv))
+            except Exception:
+                pass
+            if "TypeError" not in (lt, gt) and not tie:
                 if [lt, eq, gt].count(True) != 1: bad.append("trichotomy: < == > are %r %r %r for %s, %s" % (lt, eq, gt, items[0], items[1]))
                 if cmp(lambda: a <= b) != cmp(lambda: b >= a): bad.append("mirror: (a <= b) != (b >= a)")
             if eq and hash(a) != hash(b):
